@@ -220,3 +220,17 @@ func paramStr(m map[string]any, k string) string {
 	s, _ := m[k].(string)
 	return s
 }
+
+// safeString renders a packet for a message; a panic of String() must not
+// take the harness down.
+func safeString(p mq.Packet) (s string) {
+	defer func() {
+		if r := recover(); r != nil {
+			s = fmt.Sprintf("<String() panicked: %v>", r)
+		}
+	}()
+	if p == nil {
+		return "<nil>"
+	}
+	return p.String()
+}
